@@ -1,6 +1,7 @@
 import OVM.Tet.Spec
 import OVM.Kernel.Frames
 import OVM.Refine.DeleteFrames
+import OVM.Base.ListLemmas
 /-
   Lemmas for C15(a): which mechanism functions keep `ValenceShape` (every stored face has three
   halfedges, every stored cell four halffaces).  `ValenceShape` only reads `faces` and `cells`;
@@ -75,5 +76,868 @@ theorem valenceShape_of_eq {k k' : Kernel} (hf : k'.faces = k.faces) (hc : k'.ce
 theorem valenceShape_empty : ValenceShape ({} : Kernel) := by
   constructor <;> intro x hx <;> simp at hx
 
+/-! ### construction: the overrides and the conveniences -/
+section adds
+variable (k : Kernel)
+@[simp] theorem addEdge_faces (a b : Nat) (d : Bool) : (k.addEdge a b d).1.faces = k.faces := by
+  unfold addEdge; split <;> simp
+@[simp] theorem addEdge_cells (a b : Nat) (d : Bool) : (k.addEdge a b d).1.cells = k.cells := by
+  unfold addEdge; split <;> simp
+theorem addFace_valence (hes : List Nat) (chk : Bool) (h : ValenceShape k) (hl : hes.length = 3) :
+    ValenceShape (k.addFace hes chk).1 := by
+  unfold addFace; split
+  · unfold ValenceShape; simp only [addFaceCore_faces, addFaceCore_cells]
+    exact ⟨all_append_one _ _ h.1 hl, h.2⟩
+  · exact h
+/-- a fold that keeps `faces` and `cells` and appends one element per step -/
+theorem foldl_pair_inv {β} (step : Kernel × List Nat → β → Kernel × List Nat)
+    (hs : ∀ st x, (step st x).1.faces = st.1.faces ∧ (step st x).1.cells = st.1.cells ∧ (step st x).2.length = st.2.length + 1)
+    (xs : List β) (st : Kernel × List Nat) :
+    (xs.foldl step st).1.faces = st.1.faces ∧ (xs.foldl step st).1.cells = st.1.cells ∧
+    (xs.foldl step st).2.length = st.2.length + xs.length := by
+  induction xs generalizing st with
+  | nil => simp
+  | cons x t ih =>
+    simp only [List.foldl_cons]
+    have a := ih (step st x)
+    have b := hs st x
+    refine ⟨a.1.trans b.1, a.2.1.trans b.2.1, ?_⟩
+    rw [a.2.2, b.2.2]; simp; omega
+
+theorem addFaceV_valence (vs : List Nat) (h : ValenceShape k) (hl : vs.length = 3) :
+    ValenceShape (k.addFaceV vs).1 := by
+  unfold addFaceV
+  split
+  · exact valenceShape_of_eq rfl rfl h
+  · rename_i v0 t
+    simp only
+    generalize hr : List.foldl _ (k, ([] : List Nat)) _ = r
+    have f := foldl_pair_inv (fun (st : Kernel × List Nat) (ab : Nat × Nat) =>
+      match st.1.addEdge ab.1 ab.2 false with
+      | (k', e) => (k', st.2 ++ [heOf e (if (k'.edgeAt e).2 == ab.1 then 1 else 0)])) (by
+        intro st x; simp) ((v0 :: t).zip ((v0 :: t).tail ++ [v0])) (k, [])
+    rw [hr] at f
+    obtain ⟨k1, hes⟩ := r
+    simp only at f ⊢
+    have hlen : hes.length = 3 := by
+      rw [f.2.2]; simp at hl ⊢; omega
+    exact addFace_valence k1 hes false (valenceShape_of_eq f.1 f.2.1 h) hlen
+
+theorem tetAddFace_valence (hes : List Nat) (chk : Bool) (h : ValenceShape k) :
+    ValenceShape (k.tetAddFace hes chk).1 := by
+  unfold tetAddFace; split
+  · exact h
+  · rename_i hl; simp at hl; exact addFace_valence k hes chk h hl
+
+theorem tetAddFaceV_valence (vs : List Nat) (h : ValenceShape k) : ValenceShape (k.tetAddFaceV vs).1 := by
+  unfold tetAddFaceV; split
+  · exact h
+  · rename_i hl; simp at hl; exact addFaceV_valence k vs h hl
+
+theorem addCell_valence (hfs : List Nat) (chk : Bool) (h : ValenceShape k) (hl : hfs.length = 4) :
+    ValenceShape (k.addCell hfs chk).1 := by
+  unfold addCell; split
+  · unfold ValenceShape; simp only [addCellCore_faces, addCellCore_cells]
+    exact ⟨h.1, all_append_one _ _ h.2 hl⟩
+  · exact h
+
+theorem tetAddCell_valence (hfs : List Nat) (chk : Bool) (h : ValenceShape k) :
+    ValenceShape (k.tetAddCell hfs chk).1 := by
+  unfold tetAddCell; split
+  · exact h
+  · split
+    · exact h
+    · rename_i hl _; simp at hl; exact addCell_valence k hfs chk h hl
+
+/-- refused calls of the three overrides return the state they were given -/
+theorem tetAddFace_refused (hes : List Nat) (chk : Bool) (h : (k.tetAddFace hes chk).2 = none) :
+    (k.tetAddFace hes chk).1 = k := by
+  unfold tetAddFace at *; split
+  · rfl
+  · rename_i hl; simp only [hl, if_false] at h ⊢
+    unfold addFace at *; split <;> simp_all
+theorem tetAddCell_refused (hfs : List Nat) (chk : Bool) (h : (k.tetAddCell hfs chk).2 = none) :
+    (k.tetAddCell hfs chk).1 = k := by
+  unfold tetAddCell at *; split
+  · rfl
+  · split
+    · rfl
+    · rename_i h1 h2; simp only [h1, h2, if_false] at h ⊢
+      unfold addCell at *; split <;> simp_all
+theorem tetAddFace_wrong_valence (hes : List Nat) (chk : Bool) (h : hes.length ≠ 3) : k.tetAddFace hes chk = (k, none) := by
+  unfold tetAddFace; simp [h]
+theorem tetAddFaceV_wrong_valence (vs : List Nat) (h : vs.length ≠ 3) : k.tetAddFaceV vs = (k, none) := by
+  unfold tetAddFaceV; simp [h]
+theorem tetAddCell_wrong_valence (hfs : List Nat) (chk : Bool) (h : hfs.length ≠ 4) : k.tetAddCell hfs chk = (k, none) := by
+  unfold tetAddCell; simp [h]
+theorem tetAddCell_wrong_face_valence (hfs : List Nat) (chk : Bool) (x : Nat) (hx : x ∈ hfs)
+    (h : (k.faceAt (eOf x)).length ≠ 3) : k.tetAddCell hfs chk = (k, none) := by
+  unfold tetAddCell; split
+  · rfl
+  · have : (hfs.any fun hf => (k.faceAt (eOf hf)).length != 3) = true := by
+      simp only [List.any_eq_true]; exact ⟨x, hx, by simp [h]⟩
+    simp [this]
+
+@[simp] theorem tetAddHalfedge_faces (a b : Nat) : (k.tetAddHalfedge a b).1.faces = k.faces := by
+  unfold tetAddHalfedge; split <;> simp
+@[simp] theorem tetAddHalfedge_cells (a b : Nat) : (k.tetAddHalfedge a b).1.cells = k.cells := by
+  unfold tetAddHalfedge; split <;> simp
+theorem tetAddHalfedge_valence (a b : Nat) (h : ValenceShape k) : ValenceShape (k.tetAddHalfedge a b).1 :=
+  valenceShape_of_eq (by simp) (by simp) h
+
+theorem tetAddHalfface_valence (hes : List Nat) (chk : Bool) (h : ValenceShape k) :
+    ValenceShape (k.tetAddHalfface hes chk).1 := by
+  unfold tetAddHalfface
+  split
+  · split
+    · exact h
+    · exact tetAddFace_valence k _ chk h
+  · exact valenceShape_of_eq rfl rfl h
+
+theorem tetAddHalfface3_valence (v0 v1 v2 : Nat) (chk : Bool) (h : ValenceShape k) :
+    ValenceShape (k.tetAddHalfface3 v0 v1 v2 chk).1 := by
+  simp only [tetAddHalfface3]
+  apply tetAddHalfface_valence
+  apply tetAddHalfedge_valence
+  apply tetAddHalfedge_valence
+  apply tetAddHalfedge_valence
+  exact h
+
+theorem tetAddCell4_valence (v0 v1 v2 v3 : Nat) (chk : Bool) (h : ValenceShape k) :
+    ValenceShape (k.tetAddCell4 v0 v1 v2 v3 chk).1 := by
+  have h4 : ValenceShape ((((k.tetAddHalfface3 v0 v1 v2 false).1.tetAddHalfface3 v0 v2 v3 false).1.tetAddHalfface3 v0 v3 v1 false).1.tetAddHalfface3 v1 v3 v2 false).1 := by
+    apply tetAddHalfface3_valence
+    apply tetAddHalfface3_valence
+    apply tetAddHalfface3_valence
+    apply tetAddHalfface3_valence
+    exact h
+  simp only [tetAddCell4]
+  generalize k.tetAddHalfface3 v0 v1 v2 false = r0 at h4 ⊢
+  generalize r0.1.tetAddHalfface3 v0 v2 v3 false = r1 at h4 ⊢
+  generalize r1.1.tetAddHalfface3 v0 v3 v1 false = r2 at h4 ⊢
+  generalize r2.1.tetAddHalfface3 v1 v3 v2 false = r3 at h4 ⊢
+  split
+  · exact tetAddCell_valence _ _ chk h4
+  · exact valenceShape_of_eq rfl rfl h4
+
+theorem findOrAddFaceV_valence (vs : List Nat) (h : ValenceShape k) (hl : vs.length = 3) :
+    ValenceShape (k.findOrAddFaceV vs).1 := by
+  unfold findOrAddFaceV; split
+  · exact h
+  · exact addFaceV_valence k vs h hl
+
+theorem tetAddCellV_valence (vs : List Nat) (chk : Bool) (h : ValenceShape k) :
+    ValenceShape (k.tetAddCellV vs chk).1 := by
+  unfold tetAddCellV
+  split
+  · exact h
+  · split
+    · exact h
+    · have h4 : ValenceShape ((((k.findOrAddFaceV [vs.getD 0 0, vs.getD 1 0, vs.getD 2 0]).1.findOrAddFaceV [vs.getD 0 0, vs.getD 2 0, vs.getD 3 0]).1.findOrAddFaceV [vs.getD 0 0, vs.getD 3 0, vs.getD 1 0]).1.findOrAddFaceV [vs.getD 1 0, vs.getD 3 0, vs.getD 2 0]).1 := by
+        apply findOrAddFaceV_valence _ _ _ rfl
+        apply findOrAddFaceV_valence _ _ _ rfl
+        apply findOrAddFaceV_valence _ _ _ rfl
+        apply findOrAddFaceV_valence _ _ _ rfl
+        exact h
+      simp only []
+      generalize k.findOrAddFaceV [vs.getD 0 0, vs.getD 1 0, vs.getD 2 0] = r0 at h4 ⊢
+      generalize r0.1.findOrAddFaceV [vs.getD 0 0, vs.getD 2 0, vs.getD 3 0] = r1 at h4 ⊢
+      generalize r1.1.findOrAddFaceV [vs.getD 0 0, vs.getD 3 0, vs.getD 1 0] = r2 at h4 ⊢
+      generalize r2.1.findOrAddFaceV [vs.getD 1 0, vs.getD 3 0, vs.getD 2 0] = r3 at h4 ⊢
+      split
+      · split
+        · exact h4
+        · split
+          · exact h4
+          · exact addCell_valence _ _ false h4 rfl
+      · exact valenceShape_of_eq rfl rfl h4
+
+theorem tetAddCellV_refused_early (vs : List Nat) (chk : Bool) (h : vs.length ≠ 4 ∨ k.fullBU = false) :
+    k.tetAddCellV vs chk = (k, none) := by
+  unfold tetAddCellV
+  rcases h with h | h
+  · simp [h]
+  · split
+    · rfl
+    · simp [h]
+end adds
+
+/-! ### index swaps -/
+section swaps
+variable (k : Kernel) (a b : Nat)
+
+theorem swapCell_valence (h : ValenceShape k) : ValenceShape (k.swapCell a b) := by
+  unfold swapCell; split
+  · exact h
+  · exact ⟨h.1, all_swapAt _ _ _ h.2⟩
+
+theorem swapFace_valence (h : ValenceShape k) : ValenceShape (k.swapFace a b) := by
+  unfold swapFace; split
+  · exact h
+  · refine ⟨all_swapAt _ _ _ h.1, ?_⟩
+    exact all_foldl_modify (fun c => c) _ _ _ h.2 (fun x hx => by simpa using hx)
+
+theorem swapEdge_valence (h : ValenceShape k) : ValenceShape (k.swapEdge a b) := by
+  unfold swapEdge; split
+  · exact h
+  · refine ⟨?_, h.2⟩
+    exact all_foldl_modify (fun c => c) _ _ _ h.1 (fun x hx => by simpa using hx)
+
+theorem swapVertex_valence (h : ValenceShape k) : ValenceShape (k.swapVertex a b) :=
+  valenceShape_of_eq (by simp) (by simp) h
+end swaps
+
+/-! ### shape *and* deletion modes: the relation `Keeps` -/
+
+/-- `k'` keeps the deletion modes of `k`, and the valence shape if `k` has it -/
+structure Keeps (k k' : Kernel) : Prop where
+  shape : ValenceShape k → ValenceShape k'
+  deferred : k'.deferred = k.deferred
+  fast : k'.fast = k.fast
+
+theorem Keeps.refl (k : Kernel) : Keeps k k := ⟨id, rfl, rfl⟩
+theorem Keeps.trans {a b c : Kernel} (h1 : Keeps a b) (h2 : Keeps b c) : Keeps a c :=
+  ⟨fun h => h2.shape (h1.shape h), h2.deferred.trans h1.deferred, h2.fast.trans h1.fast⟩
+/-- changing only fields that neither the shape nor the modes read -/
+theorem Keeps.of_eq {k k' : Kernel} (hf : k'.faces = k.faces) (hc : k'.cells = k.cells)
+    (hd : k'.deferred = k.deferred) (hfa : k'.fast = k.fast) : Keeps k k' :=
+  ⟨valenceShape_of_eq hf hc, hd, hfa⟩
+
+/-- deletion is harmless for the shape when it does not renumber by shifting -/
+def ModeOK (k : Kernel) : Prop := k.deferred = true ∨ k.fast = true
+theorem Keeps.modeOK {k k' : Kernel} (h : Keeps k k') (m : ModeOK k) : ModeOK k' := by
+  unfold ModeOK at *; rw [h.deferred, h.fast]; exact m
+
+theorem foldl_keeps {β} (step : Kernel → β → Kernel) (hs : ∀ k x, Keeps k (step k x)) (xs : List β) (k : Kernel) :
+    Keeps k (xs.foldl step k) := by
+  induction xs generalizing k with
+  | nil => exact Keeps.refl k
+  | cons x t ih => exact (hs k x).trans (ih _)
+
+theorem foldl_keeps_mode {β} (step : Kernel → β → Kernel) (hs : ∀ k x, ModeOK k → Keeps k (step k x)) (xs : List β)
+    (k : Kernel) (m : ModeOK k) : Keeps k (xs.foldl step k) := by
+  induction xs generalizing k with
+  | nil => exact Keeps.refl k
+  | cons x t ih => exact (hs k x m).trans (ih _ ((hs k x m).modeOK m))
+
+section modes
+variable (k : Kernel)
+@[simp] theorem addEdgeCore_deferred (a b : Nat) : (k.addEdgeCore a b).deferred = k.deferred := by
+  unfold addEdgeCore; simp only; split <;> split <;> rfl
+@[simp] theorem addEdgeCore_fast (a b : Nat) : (k.addEdgeCore a b).fast = k.fast := by
+  unfold addEdgeCore; simp only; split <;> split <;> rfl
+@[simp] theorem addFaceCore_deferred (hes : List Nat) : (k.addFaceCore hes).deferred = k.deferred := by
+  unfold addFaceCore; simp only; split <;> split <;> rfl
+@[simp] theorem addFaceCore_fast (hes : List Nat) : (k.addFaceCore hes).fast = k.fast := by
+  unfold addFaceCore; simp only; split <;> split <;> rfl
+@[simp] theorem addCellCore_deferred (hfs : List Nat) : (k.addCellCore hfs).deferred = k.deferred := by
+  unfold addCellCore; simp only; split <;> first | rfl | (split <;> simp)
+@[simp] theorem addCellCore_fast (hfs : List Nat) : (k.addCellCore hfs).fast = k.fast := by
+  unfold addCellCore; simp only; split <;> first | rfl | (split <;> simp)
+
+theorem addEdge_keeps (a b : Nat) (d : Bool) : Keeps k (k.addEdge a b d).1 := by
+  refine Keeps.of_eq (by simp) (by simp) ?_ ?_ <;> (unfold addEdge; split <;> simp)
+
+theorem addFace_keeps (hes : List Nat) (chk : Bool) (hl : hes.length = 3) : Keeps k (k.addFace hes chk).1 := by
+  refine ⟨fun h => addFace_valence k hes chk h hl, ?_, ?_⟩ <;> (unfold addFace; split <;> simp)
+
+theorem addCell_keeps (hfs : List Nat) (chk : Bool) (hl : hfs.length = 4) : Keeps k (k.addCell hfs chk).1 := by
+  refine ⟨fun h => addCell_valence k hfs chk h hl, ?_, ?_⟩ <;> (unfold addCell; split <;> simp)
+
+theorem tetAddFace_keeps (hes : List Nat) (chk : Bool) : Keeps k (k.tetAddFace hes chk).1 := by
+  unfold tetAddFace; split
+  · exact Keeps.refl k
+  · rename_i hl; simp at hl; exact addFace_keeps k hes chk hl
+
+theorem tetAddCell_keeps (hfs : List Nat) (chk : Bool) : Keeps k (k.tetAddCell hfs chk).1 := by
+  unfold tetAddCell; split
+  · exact Keeps.refl k
+  · split
+    · exact Keeps.refl k
+    · rename_i hl _; simp at hl; exact addCell_keeps k hfs chk hl
+
+/-- the edge-collecting fold of `add_face(vertices)`, now also for the modes -/
+theorem foldl_pair_modes {β} (step : Kernel × List Nat → β → Kernel × List Nat)
+    (hs : ∀ st x, (step st x).1.deferred = st.1.deferred ∧ (step st x).1.fast = st.1.fast)
+    (xs : List β) (st : Kernel × List Nat) :
+    (xs.foldl step st).1.deferred = st.1.deferred ∧ (xs.foldl step st).1.fast = st.1.fast := by
+  induction xs generalizing st with
+  | nil => simp
+  | cons x t ih =>
+    simp only [List.foldl_cons]
+    exact ⟨(ih _).1.trans (hs st x).1, (ih _).2.trans (hs st x).2⟩
+
+theorem addFaceV_keeps (vs : List Nat) (hl : vs.length = 3) : Keeps k (k.addFaceV vs).1 := by
+  refine ⟨fun h => addFaceV_valence k vs h hl, ?_, ?_⟩
+  all_goals
+    unfold addFaceV
+    split
+    · rfl
+    · rename_i v0 t
+      simp only
+      generalize hr : List.foldl _ (k, ([] : List Nat)) _ = r
+      have f := foldl_pair_modes (fun (st : Kernel × List Nat) (ab : Nat × Nat) =>
+        match st.1.addEdge ab.1 ab.2 false with
+        | (k', e) => (k', st.2 ++ [heOf e (if (k'.edgeAt e).2 == ab.1 then 1 else 0)])) (by
+          intro st x; exact ⟨(addEdge_keeps st.1 x.1 x.2 false).deferred, (addEdge_keeps st.1 x.1 x.2 false).fast⟩)
+          ((v0 :: t).zip ((v0 :: t).tail ++ [v0])) (k, [])
+      rw [hr] at f
+      obtain ⟨k1, hes⟩ := r
+      simp only at f ⊢
+      first
+        | exact ((by unfold addFace; split <;> simp : (k1.addFace hes false).1.deferred = k1.deferred)).trans f.1
+        | exact ((by unfold addFace; split <;> simp : (k1.addFace hes false).1.fast = k1.fast)).trans f.2
+end modes
+
+section keeps2
+variable (k : Kernel)
+
+theorem tetAddFaceV_keeps (vs : List Nat) : Keeps k (k.tetAddFaceV vs).1 := by
+  unfold tetAddFaceV; split
+  · exact Keeps.refl k
+  · rename_i hl; simp at hl; exact addFaceV_keeps k vs hl
+
+theorem tetAddHalfedge_keeps (a b : Nat) : Keeps k (k.tetAddHalfedge a b).1 := by
+  unfold tetAddHalfedge; split
+  · exact Keeps.refl k
+  · exact addEdge_keeps k a b false
+
+theorem tetAddHalfface_keeps (hes : List Nat) (chk : Bool) : Keeps k (k.tetAddHalfface hes chk).1 := by
+  unfold tetAddHalfface
+  split
+  · split
+    · exact Keeps.refl k
+    · exact tetAddFace_keeps k _ chk
+  · exact Keeps.of_eq rfl rfl rfl rfl
+
+theorem tetAddHalfface3_keeps (v0 v1 v2 : Nat) (chk : Bool) : Keeps k (k.tetAddHalfface3 v0 v1 v2 chk).1 := by
+  simp only [tetAddHalfface3]
+  exact ((tetAddHalfedge_keeps k v0 v1).trans (tetAddHalfedge_keeps _ v1 v2)).trans
+    ((tetAddHalfedge_keeps _ v2 v0).trans (tetAddHalfface_keeps _ _ chk))
+
+theorem tetAddCell4_keeps (v0 v1 v2 v3 : Nat) (chk : Bool) : Keeps k (k.tetAddCell4 v0 v1 v2 v3 chk).1 := by
+  have h4 : Keeps k ((((k.tetAddHalfface3 v0 v1 v2 false).1.tetAddHalfface3 v0 v2 v3 false).1.tetAddHalfface3 v0 v3 v1 false).1.tetAddHalfface3 v1 v3 v2 false).1 :=
+    ((tetAddHalfface3_keeps k v0 v1 v2 false).trans (tetAddHalfface3_keeps _ v0 v2 v3 false)).trans
+      ((tetAddHalfface3_keeps _ v0 v3 v1 false).trans (tetAddHalfface3_keeps _ v1 v3 v2 false))
+  simp only [tetAddCell4]
+  generalize k.tetAddHalfface3 v0 v1 v2 false = r0 at h4 ⊢
+  generalize r0.1.tetAddHalfface3 v0 v2 v3 false = r1 at h4 ⊢
+  generalize r1.1.tetAddHalfface3 v0 v3 v1 false = r2 at h4 ⊢
+  generalize r2.1.tetAddHalfface3 v1 v3 v2 false = r3 at h4 ⊢
+  split
+  · exact h4.trans (tetAddCell_keeps _ _ chk)
+  · exact h4.trans (Keeps.of_eq rfl rfl rfl rfl)
+
+theorem findOrAddFaceV_keeps (vs : List Nat) (hl : vs.length = 3) : Keeps k (k.findOrAddFaceV vs).1 := by
+  unfold findOrAddFaceV; split
+  · exact Keeps.refl k
+  · exact addFaceV_keeps k vs hl
+
+theorem tetAddCellV_keeps (vs : List Nat) (chk : Bool) : Keeps k (k.tetAddCellV vs chk).1 := by
+  unfold tetAddCellV
+  split
+  · exact Keeps.refl k
+  · split
+    · exact Keeps.refl k
+    · have h4 : Keeps k ((((k.findOrAddFaceV [vs.getD 0 0, vs.getD 1 0, vs.getD 2 0]).1.findOrAddFaceV [vs.getD 0 0, vs.getD 2 0, vs.getD 3 0]).1.findOrAddFaceV [vs.getD 0 0, vs.getD 3 0, vs.getD 1 0]).1.findOrAddFaceV [vs.getD 1 0, vs.getD 3 0, vs.getD 2 0]).1 :=
+        ((findOrAddFaceV_keeps k _ rfl).trans (findOrAddFaceV_keeps _ _ rfl)).trans
+          ((findOrAddFaceV_keeps _ _ rfl).trans (findOrAddFaceV_keeps _ _ rfl))
+      simp only []
+      generalize k.findOrAddFaceV [vs.getD 0 0, vs.getD 1 0, vs.getD 2 0] = r0 at h4 ⊢
+      generalize r0.1.findOrAddFaceV [vs.getD 0 0, vs.getD 2 0, vs.getD 3 0] = r1 at h4 ⊢
+      generalize r1.1.findOrAddFaceV [vs.getD 0 0, vs.getD 3 0, vs.getD 1 0] = r2 at h4 ⊢
+      generalize r2.1.findOrAddFaceV [vs.getD 1 0, vs.getD 3 0, vs.getD 2 0] = r3 at h4 ⊢
+      split
+      · split
+        · exact h4
+        · split
+          · exact h4
+          · exact h4.trans (addCell_keeps _ _ false rfl)
+      · exact h4.trans (Keeps.of_eq rfl rfl rfl rfl)
+
+/-! swaps -/
+theorem swapCell_keeps (a b : Nat) : Keeps k (k.swapCell a b) := ⟨swapCell_valence k a b, by simp, by simp⟩
+theorem swapFace_keeps (a b : Nat) : Keeps k (k.swapFace a b) := ⟨swapFace_valence k a b, by simp, by simp⟩
+theorem swapEdge_keeps (a b : Nat) : Keeps k (k.swapEdge a b) := ⟨swapEdge_valence k a b, by simp, by simp⟩
+theorem swapVertex_keeps (a b : Nat) : Keeps k (k.swapVertex a b) := ⟨swapVertex_valence k a b, by simp, by simp⟩
+
+/-! deletion cores -/
+theorem deleteCellCore_keeps (h : Nat) : Keeps k (k.deleteCellCore h) := by
+  refine ⟨fun hv => ?_, by simp, by simp⟩
+  unfold deleteCellCore
+  simp only []
+  split
+  · -- fast immediate: swap, unlink, erase
+    rename_i hfn
+    have h1 := swapCell_valence k h (k.nC - 1) hv
+    split
+    · exact valenceShape_of_eq (by simp) (by simp) h1
+    · exact ⟨by simpa using h1.1, by simpa using all_eraseIdx _ _ h1.2⟩
+  · split
+    · exact valenceShape_of_eq (by simp) (by simp) hv
+    · exact ⟨by simpa using hv.1, by simpa using all_eraseIdx _ _ hv.2⟩
+
+theorem deleteVertexCore_keeps (h : Nat) : Keeps k (k.deleteVertexCore h) := by
+  refine ⟨fun hv => ?_, by simp, by simp⟩
+  unfold deleteVertexCore
+  simp only []
+  split
+  · have h1 := swapVertex_valence k h (k.nV - 1) hv
+    split
+    · exact valenceShape_of_eq (by simp) (by simp) h1
+    · exact valenceShape_of_eq (by simp) (by simp) h1
+  · split
+    · exact valenceShape_of_eq (by simp) (by simp) hv
+    · exact valenceShape_of_eq (by simp) (by simp) hv
+end keeps2
+
+end Kernel
+end OVM
+
+namespace OVM
+
+theorem sortedLT_insertSorted (x : Nat) (l : List Nat) (h : SortedLT l) : SortedLT (insertSorted x l) := by
+  induction l with
+  | nil => simp [insertSorted, SortedLT]
+  | cons a t ih =>
+    unfold insertSorted
+    split
+    · rename_i hxa
+      cases t with
+      | nil => simp [SortedLT, hxa]
+      | cons b t' => exact ⟨hxa, h⟩
+    · split
+      · exact h
+      · rename_i h1 h2
+        have hax : a < x := by omega
+        cases t with
+        | nil => simp [insertSorted, SortedLT, hax]
+        | cons b t' =>
+          have hab : a < b := h.1
+          have ht : SortedLT (b :: t') := h.2
+          have ih' := ih ht
+          unfold insertSorted at ih' ⊢
+          split
+          · exact ⟨hax, by rename_i hxb; exact ⟨hxb, ht⟩⟩
+          · split
+            · exact ⟨hab, ht⟩
+            · rename_i h3 h4
+              simp only [h3, h4, if_false] at ih'
+              exact ⟨hab, ih'⟩
+
+theorem toSet_nodup (l : List Nat) : (toSet l).Nodup := by
+  apply sortedLT_nodup
+  unfold toSet
+  have : ∀ (l s : List Nat), SortedLT s → SortedLT (l.foldl (fun s x => insertSorted x s) s) := by
+    intro l
+    induction l with
+    | nil => intro s hs; exact hs
+    | cons a t ih => intro s hs; exact ih _ (sortedLT_insertSorted a s hs)
+  exact this l [] (by simp [SortedLT])
+
+theorem getElem?_foldl_modify_nodup {α} (f : α → α) (xs : List Nat) (hn : xs.Nodup) (l : List α) (i : Nat) :
+    (xs.foldl (fun m j => m.modify j f) l)[i]? = if i ∈ xs then l[i]?.map f else l[i]? := by
+  induction xs generalizing l with
+  | nil => simp
+  | cons x t ih =>
+    simp only [List.foldl_cons]
+    rw [ih (List.nodup_cons.mp hn).2, List.getElem?_modify]
+    have hx : x ∉ t := (List.nodup_cons.mp hn).1
+    by_cases hix : x = i
+    · subst hix; simp [hx]
+    · have : ¬ i = x := fun e => hix e.symm
+      simp [hix, this]
+
+/-- modifying at pairwise different positions: every element of the result is an old element or the
+    image of one -/
+theorem all_foldl_modify_nodup {α} {P Q : α → Prop} (f : α → α) (xs : List Nat) (hn : xs.Nodup) (l : List α)
+    (h : ∀ x ∈ l, P x ∧ Q x) (hf : ∀ x, P x → Q x → P (f x)) :
+    ∀ y ∈ xs.foldl (fun m j => m.modify j f) l, P y := by
+  intro y hy
+  obtain ⟨i, hi⟩ := List.getElem?_of_mem hy
+  rw [getElem?_foldl_modify_nodup f xs hn l i] at hi
+  split at hi
+  · cases hl : l[i]? with
+    | none => simp [hl] at hi
+    | some x =>
+      simp [hl] at hi; subst hi
+      have := h x (List.mem_of_getElem? hl)
+      exact hf x this.1 this.2
+  · exact (h y (List.mem_of_getElem? hi)).1
+
+namespace Kernel
+section keeps3
+variable (k : Kernel)
+
+/-- no stored cell mentions face `h` -/
+def NoRefF (k : Kernel) (h : Nat) : Prop := ∀ c ∈ k.cells, ∀ hf ∈ c, hf / 2 ≠ h
+/-- no stored face mentions edge `h` -/
+def NoRefE (k : Kernel) (h : Nat) : Prop := ∀ f ∈ k.faces, ∀ he ∈ f, he / 2 ≠ h
+
+theorem fixHalfList_length (h : Nat) (l : List Nat) (hn : ∀ x ∈ l, x / 2 ≠ h) : (fixHalfList h l).length = l.length := by
+  unfold fixHalfList
+  have e1 : l.filter (· != heOf h 0) = l := by
+    apply List.filter_eq_self.mpr; intro x hx; have := hn x hx; simp [heOf]; omega
+  have e2 : l.filter (· != heOf h 1) = l := by
+    apply List.filter_eq_self.mpr; intro x hx; have := hn x hx; simp [heOf]; omega
+  rw [e1, e2]; simp
+
+theorem liveCells_nodup : k.liveCells.Nodup := by
+  unfold liveCells; exact List.Nodup.sublist List.filter_sublist List.nodup_range
+theorem liveFaces_nodup : k.liveFaces.Nodup := by
+  unfold liveFaces; exact List.Nodup.sublist List.filter_sublist List.nodup_range
+
+theorem eraseFace_valence (h : Nat) (hv : ValenceShape k) (hm : k.fast = true ∨ NoRefF k h) : ValenceShape (k.eraseFace h) := by
+  unfold eraseFace
+  refine ⟨by simpa using all_eraseIdx _ _ hv.1, ?_⟩
+  simp only
+  rcases hm with hf | hn
+  · simp [hf]; exact hv.2
+  · split
+    · have hnd : (if k.fBU = true then toSet (List.filterMap id (List.drop (heOf h 0) k.incCell)) else k.liveCells).Nodup := by
+        split
+        · exact toSet_nodup _
+        · exact liveCells_nodup k
+      exact all_foldl_modify_nodup (P := fun c => c.length = 4) (Q := fun c => ∀ hf ∈ c, hf / 2 ≠ h) (fixHalfList h) _ hnd k.cells
+        (fun c hc => ⟨hv.2 c hc, hn c hc⟩) (fun x hx hq => by rw [fixHalfList_length h x hq]; exact hx)
+    · exact hv.2
+
+theorem eraseEdge_valence (h : Nat) (hv : ValenceShape k) (hm : k.fast = true ∨ NoRefE k h) : ValenceShape (k.eraseEdge h) := by
+  unfold eraseEdge
+  refine ⟨?_, by simpa using hv.2⟩
+  simp only
+  rcases hm with hf | hn
+  · simp [hf]; exact hv.1
+  · split
+    · have hnd : (if k.eBU = true then toSet (List.map eOf (List.drop (heOf h 0) k.incHfs).flatten) else k.liveFaces).Nodup := by
+        split
+        · exact toSet_nodup _
+        · exact liveFaces_nodup k
+      exact all_foldl_modify_nodup (P := fun c => c.length = 3) (Q := fun c => ∀ hf ∈ c, hf / 2 ≠ h) (fixHalfList h) _ hnd k.faces
+        (fun c hc => ⟨hv.1 c hc, hn c hc⟩) (fun x hx hq => by rw [fixHalfList_length h x hq]; exact hx)
+    · exact hv.1
+end keeps3
+section keeps4
+variable (k : Kernel)
+
+theorem deleteFaceCore_keeps (h : Nat) (hm : ModeOK k ∨ NoRefF k h) : Keeps k (k.deleteFaceCore h) := by
+  refine ⟨fun hv => ?_, by simp, by simp⟩
+  unfold deleteFaceCore
+  simp only []
+  cases hd : k.deferred <;> cases hf : k.fast <;> simp only [unlinkFace_deferred, swapFace_deferred, hd, hf, Bool.and_true, Bool.and_false, Bool.not_false, Bool.not_true, if_true, if_false, Bool.false_eq_true]
+  · -- shifting erase: needs the reference-freeness
+    rcases hm with hm | hn
+    · rcases hm with h1 | h1 <;> simp_all
+    · exact eraseFace_valence _ h (valenceShape_of_eq (by simp) (by simp) hv) (Or.inr (by unfold NoRefF at *; simpa using hn))
+  · have h1 := swapFace_valence k h (k.nF - 1) hv
+    exact eraseFace_valence _ _ (valenceShape_of_eq (k := k.swapFace h (k.nF - 1)) (by simp) (by simp) h1) (Or.inl (by rw [unlinkFace_fast, swapFace_fast]; exact hf))
+  · exact valenceShape_of_eq (by simp) (by simp) hv
+  · exact valenceShape_of_eq (by simp) (by simp) hv
+
+theorem deleteEdgeCore_keeps (h : Nat) (hm : ModeOK k ∨ NoRefE k h) : Keeps k (k.deleteEdgeCore h) := by
+  refine ⟨fun hv => ?_, by simp, by simp⟩
+  unfold deleteEdgeCore
+  simp only []
+  cases hd : k.deferred <;> cases hf : k.fast <;> simp only [unlinkEdge_deferred, swapEdge_deferred, hd, hf, Bool.and_true, Bool.and_false, Bool.not_false, Bool.not_true, if_true, if_false, Bool.false_eq_true]
+  · rcases hm with hm | hn
+    · rcases hm with h1 | h1 <;> simp_all
+    · exact eraseEdge_valence _ h (valenceShape_of_eq (by simp) (by simp) hv) (Or.inr (by unfold NoRefE at *; simpa using hn))
+  · have h1 := swapEdge_valence k h (k.nE - 1) hv
+    exact eraseEdge_valence _ _ (valenceShape_of_eq (k := k.swapEdge h (k.nE - 1)) (by simp) (by simp) h1) (Or.inl (by rw [unlinkEdge_fast, swapEdge_fast]; exact hf))
+  · exact valenceShape_of_eq (by simp) (by simp) hv
+  · exact valenceShape_of_eq (by simp) (by simp) hv
+
+/-! the four public deletions, when no index-shifting erase happens (deferred or fast mode) -/
+theorem deleteCell_keeps (c : Nat) : Keeps k (k.deleteCell c) := deleteCellCore_keeps k c
+
+theorem deleteFace_keeps (f : Nat) (m : ModeOK k) : Keeps k (k.deleteFace f) := by
+  unfold deleteFace
+  have a := foldl_keeps deleteCellCore (fun k x => deleteCellCore_keeps k x) (k.incidentCells [f]).reverse k
+  exact a.trans (deleteFaceCore_keeps _ f (Or.inl (a.modeOK m)))
+
+theorem deleteEdge_keeps (e : Nat) (m : ModeOK k) : Keeps k (k.deleteEdge e) := by
+  unfold deleteEdge
+  simp only []
+  have a := foldl_keeps deleteCellCore (fun k x => deleteCellCore_keeps k x) (k.incidentCells (k.incidentFaces [e])).reverse k
+  have b := foldl_keeps_mode deleteFaceCore (fun k x mk => deleteFaceCore_keeps k x (Or.inl mk)) (k.incidentFaces [e]).reverse _ (a.modeOK m)
+  exact (a.trans b).trans (deleteEdgeCore_keeps _ e (Or.inl ((a.trans b).modeOK m)))
+
+theorem deleteVertex_keeps (v : Nat) (m : ModeOK k) : Keeps k (k.deleteVertex v) := by
+  unfold deleteVertex
+  simp only []
+  have a := foldl_keeps deleteCellCore (fun k x => deleteCellCore_keeps k x) (k.incidentCells (k.incidentFaces (k.incidentEdges [v]))).reverse k
+  have b := foldl_keeps_mode deleteFaceCore (fun k x mk => deleteFaceCore_keeps k x (Or.inl mk)) (k.incidentFaces (k.incidentEdges [v])).reverse _ (a.modeOK m)
+  have c := foldl_keeps_mode deleteEdgeCore (fun k x mk => deleteEdgeCore_keeps k x (Or.inl mk)) (k.incidentEdges [v]).reverse _ ((a.trans b).modeOK m)
+  exact ((a.trans b).trans c).trans (deleteVertexCore_keeps _ v)
+end keeps4
+section keeps5
+variable (k : Kernel)
+
+theorem gcSweep_keeps (n : Nat) (isDel : Kernel → Nat → Bool) (unflag core : Kernel → Nat → Kernel)
+    (hu : ∀ k i, Keeps k (unflag k i)) (hc : ∀ k i, ModeOK k → Keeps k (core k i)) (m : ModeOK k) :
+    Keeps k (gcSweep k n isDel unflag core) := by
+  unfold gcSweep
+  apply foldl_keeps_mode _ _ _ _ m
+  intro k i mk
+  split
+  · exact (hu k i).trans (hc _ i ((hu k i).modeOK mk))
+  · exact Keeps.refl k
+
+theorem gcCells_keeps (m : ModeOK k) : Keeps k k.gcCells := by
+  unfold gcCells
+  refine Keeps.trans (b := gcSweep k k.nC cDeleted (fun k i => { k with cDel := k.cDel.set i false }) deleteCellCore) ?_ (Keeps.of_eq rfl rfl rfl rfl)
+  exact gcSweep_keeps k _ _ _ _ (fun k i => Keeps.of_eq rfl rfl rfl rfl) (fun k i _ => deleteCellCore_keeps k i) m
+theorem gcFaces_keeps (m : ModeOK k) : Keeps k k.gcFaces := by
+  unfold gcFaces
+  refine Keeps.trans (b := gcSweep k k.nF fDeleted (fun k i => { k with fDel := k.fDel.set i false }) deleteFaceCore) ?_ (Keeps.of_eq rfl rfl rfl rfl)
+  exact gcSweep_keeps k _ _ _ _ (fun k i => Keeps.of_eq rfl rfl rfl rfl) (fun k i mk => deleteFaceCore_keeps k i (Or.inl mk)) m
+theorem gcEdges_keeps (m : ModeOK k) : Keeps k k.gcEdges := by
+  unfold gcEdges
+  refine Keeps.trans (b := gcSweep k k.nE eDeleted (fun k i => { k with eDel := k.eDel.set i false }) deleteEdgeCore) ?_ (Keeps.of_eq rfl rfl rfl rfl)
+  exact gcSweep_keeps k _ _ _ _ (fun k i => Keeps.of_eq rfl rfl rfl rfl) (fun k i mk => deleteEdgeCore_keeps k i (Or.inl mk)) m
+theorem gcVerts_keeps (m : ModeOK k) : Keeps k k.gcVerts := by
+  unfold gcVerts
+  refine Keeps.trans (b := gcSweep k k.nV vDeleted (fun k i => { k with vDel := k.vDel.set i false }) deleteVertexCore) ?_ (Keeps.of_eq rfl rfl rfl rfl)
+  exact gcSweep_keeps k _ _ _ _ (fun k i => Keeps.of_eq rfl rfl rfl rfl) (fun k i _ => deleteVertexCore_keeps k i) m
+
+/-- garbage collection in fast mode: swap-and-pop only, no definition is rewritten -/
+theorem collectGarbage_keeps (hf : k.fast = true) : Keeps k k.collectGarbage := by
+  unfold collectGarbage
+  split
+  · exact Keeps.refl k
+  · rename_i hc
+    have hd : k.deferred = true := by
+      cases h : k.deferred <;> simp [h] at hc ⊢
+    have m0 : ModeOK { k with deferred := false } := Or.inr hf
+    have a := gcCells_keeps _ m0
+    have b := gcFaces_keeps _ (a.modeOK m0)
+    have c := gcEdges_keeps _ ((a.trans b).modeOK m0)
+    have d := gcVerts_keeps _ (((a.trans b).trans c).modeOK m0)
+    have e := ((a.trans b).trans c).trans d
+    generalize ({ k with deferred := false } : Kernel).gcCells.gcFaces.gcEdges.gcVerts = g at e
+    refine ⟨fun hv => ?_, ?_, ?_⟩
+    · have h0 : ValenceShape ({ k with deferred := false } : Kernel) := hv
+      exact e.shape h0
+    · exact hd.symm
+    · exact e.fast
+
+theorem enableDeferred_fast (b : Bool) (hm : k.fast = true ∨ k.deferred = false ∨ b = true) : (k.enableDeferred b).fast = k.fast := by
+  unfold enableDeferred
+  simp only
+  split
+  · rcases hm with h | h | h
+    · exact (collectGarbage_keeps k h).fast
+    · simp_all
+    · simp_all
+  · rfl
+
+theorem enableDeferred_valence (b : Bool) (hv : ValenceShape k) (hm : k.fast = true ∨ k.deferred = false ∨ b = true) :
+    ValenceShape (k.enableDeferred b) := by
+  unfold enableDeferred
+  simp only
+  split
+  · rcases hm with h | h | h
+    · exact valenceShape_of_eq rfl rfl ((collectGarbage_keeps k h).shape hv)
+    · simp_all
+    · simp_all
+  · exact valenceShape_of_eq rfl rfl hv
+
+@[simp] theorem enableDeferred_deferred (b : Bool) : (k.enableDeferred b).deferred = b := by
+  unfold enableDeferred; rfl
+
+theorem enableFast_valence (b : Bool) (hv : ValenceShape k) : ValenceShape (k.enableFast b) := valenceShape_of_eq rfl rfl hv
+
+theorem enableVBU_valence (b : Bool) (hv : ValenceShape k) : ValenceShape (k.enableVBU b) := by
+  unfold enableVBU; simp only; refine valenceShape_of_eq ?_ ?_ hv <;> (split <;> split <;> rfl)
+theorem enableEBU_valence (b : Bool) (hv : ValenceShape k) : ValenceShape (k.enableEBU b) := by
+  unfold enableEBU reorderAll; simp only
+  refine valenceShape_of_eq ?_ ?_ hv <;> (repeat' split) <;> simp
+theorem enableFBU_valence (b : Bool) (hv : ValenceShape k) : ValenceShape (k.enableFBU b) := by
+  unfold enableFBU reorderAll; simp only
+  refine valenceShape_of_eq ?_ ?_ hv <;> (repeat' split) <;> simp
+
+theorem addVertex_keeps : Keeps k k.addVertex.1 := Keeps.of_eq rfl rfl rfl rfl
+theorem addNVertices_keeps (n : Nat) : Keeps k (k.addNVertices n) := Keeps.of_eq rfl rfl rfl rfl
+theorem clear_valence (p : Bool) : ValenceShape (k.clear p) := by
+  constructor <;> intro x hx <;> simp [clear] at hx
+end keeps5
+section keeps6
+
+theorem foldl_keeps_fst {β γ} (step : Kernel × γ → β → Kernel × γ) (hs : ∀ st x, Keeps st.1 (step st x).1)
+    (xs : List β) (st : Kernel × γ) : Keeps st.1 (xs.foldl step st).1 := by
+  induction xs generalizing st with
+  | nil => exact Keeps.refl _
+  | cons x t ih => exact (hs st x).trans (ih _)
+
+theorem foldl_keeps_fst_mode {β γ} (step : Kernel × γ → β → Kernel × γ) (hs : ∀ st x, ModeOK st.1 → Keeps st.1 (step st x).1)
+    (xs : List β) (st : Kernel × γ) (m : ModeOK st.1) : Keeps st.1 (xs.foldl step st).1 := by
+  induction xs generalizing st with
+  | nil => exact Keeps.refl _
+  | cons x t ih => exact (hs st x m).trans (ih _ ((hs st x m).modeOK m))
+
+theorem collapseHe_keeps (a b : Nat) (st : Kernel × List Nat) (h : Nat) : Keeps st.1 (collapseHe a b st h).1 := by
+  unfold collapseHe
+  simp only []
+  exact (tetAddHalfedge_keeps _ _ _).trans (Keeps.of_eq rfl rfl rfl rfl)
+
+theorem collapseHf_keeps (a b : Nat) (c : List Nat) (st : Kernel × List Nat) (i : Nat) : Keeps st.1 (collapseHf a b c st i).1 := by
+  unfold collapseHf
+  simp only []
+  have f := foldl_keeps_fst (fun (s : Kernel × List Nat) j => collapseHe a b s ((st.1.hfHes (c.getD i 0)).getD j 0))
+    (fun s x => collapseHe_keeps a b s _) (List.range 3) (st.1, [])
+  generalize List.foldl _ (st.1, ([] : List Nat)) (List.range 3) = r at f ⊢
+  simp only at f
+  have g : Keeps st.1 ({ r.1 with fault := r.1.fault || decide (c.length ≤ i) || decide ((st.1.hfHes (c.getD i 0)).length < 3) } : Kernel) :=
+    f.trans (Keeps.of_eq rfl rfl rfl rfl)
+  generalize ({ r.1 with fault := r.1.fault || decide (c.length ≤ i) || decide ((st.1.hfHes (c.getD i 0)).length < 3) } : Kernel) = k1 at g ⊢
+  have g2 := g.trans (tetAddHalfface_keeps k1 r.2 false)
+  generalize k1.tetAddHalfface r.2 false = r2 at g2 ⊢
+  split
+  · exact g2.trans (Keeps.of_eq rfl rfl rfl rfl)
+  · exact g2.trans (Keeps.of_eq rfl rfl rfl rfl)
+
+theorem collapseCell_keeps (a b : Nat) (coll : List Nat) (st : Kernel × List (Nat × List Nat)) (ch : Nat) :
+    Keeps st.1 (collapseCell a b coll st ch).1 := by
+  unfold collapseCell
+  split
+  · exact Keeps.refl _
+  · simp only []
+    have f := foldl_keeps_fst (collapseHf a b (st.1.cellAt ch)) (fun s x => collapseHf_keeps a b _ s x) (List.range 4) (st.1, [])
+    exact f.trans (deleteCell_keeps _ ch)
+
+theorem readdCell_keeps (k : Kernel) (n : Nat × List Nat) : Keeps k (readdCell k n) := by
+  unfold readdCell
+  simp only []
+  have g := tetAddCell_keeps k n.2 false
+  generalize k.tetAddCell n.2 false = r at g ⊢
+  split
+  · exact g.trans (Keeps.of_eq rfl rfl rfl rfl)
+  · exact g.trans (Keeps.of_eq rfl rfl rfl rfl)
+
+theorem readdCell4_keeps (k : Kernel) (n : Nat × List Nat) : Keeps k (readdCell4 k n) := by
+  unfold readdCell4
+  simp only []
+  have g := tetAddCell4_keeps k (n.2.getD 0 0) (n.2.getD 1 0) (n.2.getD 2 0) (n.2.getD 3 0) false
+  generalize k.tetAddCell4 (n.2.getD 0 0) (n.2.getD 1 0) (n.2.getD 2 0) (n.2.getD 3 0) false = r at g ⊢
+  split
+  · exact g.trans (Keeps.of_eq rfl rfl rfl rfl)
+  · exact g.trans (Keeps.of_eq rfl rfl rfl rfl)
+
+/-- what `enable_deferred_deletion(true)` at the start of collapse / split does -/
+theorem enterDeferred (k0 : Kernel) (hv : ValenceShape k0) :
+    let k := if !k0.deferred then k0.enableDeferred true else k0
+    ValenceShape k ∧ k.deferred = true ∧ k.fast = k0.fast := by
+  intro k
+  cases hd : k0.deferred
+  · have : k = k0.enableDeferred true := by simp [k, hd]
+    rw [this]
+    exact ⟨enableDeferred_valence k0 true hv (Or.inr (Or.inr rfl)), by simp, enableDeferred_fast k0 true (Or.inr (Or.inr rfl))⟩
+  · have : k = k0 := by simp [k, hd]
+    rw [this]; exact ⟨hv, hd, rfl⟩
+
+/-- leaving the temporarily deferred mode again (`enable_deferred_deletion(tmp)`): garbage collection
+    happens exactly when the caller's mode was immediate -/
+theorem leaveDeferred (k : Kernel) (tmp : Bool) (hv : ValenceShape k) (hm : tmp = true ∨ k.fast = true) :
+    ValenceShape (k.enableDeferred tmp) := by
+  rcases hm with h | h
+  · exact enableDeferred_valence k tmp hv (Or.inr (Or.inr h))
+  · exact enableDeferred_valence k tmp hv (Or.inl h)
+
+theorem collapseStar_keeps (k : Kernel) (a b : Nat) (coll : List Nat) : Keeps k (k.collapseStar a b coll).1 := by
+  unfold collapseStar
+  exact foldl_keeps_fst (collapseCell a b coll) (fun s x => collapseCell_keeps _ _ _ s x) (k.qVC a) (k, [])
+
+theorem collapseFinish_keeps (r : Kernel × List (Nat × List Nat)) (a : Nat) (m : ModeOK r.1) : Keeps r.1 (collapseFinish r a) := by
+  unfold collapseFinish
+  exact (deleteVertex_keeps r.1 a m).trans (foldl_keeps readdCell readdCell_keeps r.2 _)
+
+theorem collapseBody_keeps (k : Kernel) (tmp : Bool) (heh : Nat) (m : ModeOK k) : Keeps k (k.collapseBody tmp heh).1 := by
+  unfold collapseBody
+  simp only []
+  have s0 : Keeps k ({ k with fault := k.fault || (!k.fBU && !(k.qHEHF heh).isEmpty) } : Kernel) := Keeps.of_eq rfl rfl rfl rfl
+  generalize ({ k with fault := k.fault || (!k.fBU && !(k.qHEHF heh).isEmpty) } : Kernel) = kf at s0 ⊢
+  have s1 := s0.trans (collapseStar_keeps kf (k.fromV heh) (k.toV heh) (toSet ((k.qHEHF heh).filterMap kf.cellOf)))
+  generalize kf.collapseStar (k.fromV heh) (k.toV heh) (toSet ((k.qHEHF heh).filterMap kf.cellOf)) = r at s1 ⊢
+  exact s1.trans (collapseFinish_keeps r _ (s1.modeOK m))
+
+theorem collapseEdge_valence (k0 : Kernel) (heh : Nat) (hv : ValenceShape k0) (hm : ModeOK k0) :
+    ValenceShape (k0.collapseEdge heh).1 := by
+  unfold collapseEdge
+  simp only []
+  have e := enterDeferred k0 hv
+  simp only at e
+  generalize (if (!k0.deferred) = true then k0.enableDeferred true else k0) = k at e ⊢
+  obtain ⟨hvk, hdk, hfk⟩ := e
+  have b := collapseBody_keeps k k0.deferred heh (Or.inl hdk)
+  generalize k.collapseBody k0.deferred heh = r at b ⊢
+  apply leaveDeferred _ _ (b.shape hvk)
+  rcases hm with h | h
+  · exact Or.inl h
+  · exact Or.inr (by rw [b.fast, hfk]; exact h)
+
+theorem splitEdgeHf_keeps (heh vh : Nat) (st : Kernel × List (Nat × List Nat)) (hfh : Nat) : Keeps st.1 (splitEdgeHf heh vh st hfh).1 := by
+  unfold splitEdgeHf
+  simp only []
+  split
+  · exact Keeps.of_eq rfl rfl rfl rfl
+  · exact (deleteCell_keeps _ _).trans (Keeps.of_eq rfl rfl rfl rfl)
+
+theorem splitFaceSide_keeps (fh vh : Nat) (st : Kernel × List (Nat × List Nat)) (i : Nat) : Keeps st.1 (splitFaceSide fh vh st i).1 := by
+  unfold splitFaceSide
+  simp only []
+  split
+  · exact Keeps.refl _
+  · exact (deleteCell_keeps _ _).trans (Keeps.of_eq rfl rfl rfl rfl)
+
+theorem splitEdgeBody_keeps (k : Kernel) (heh vh : Nat) (m : ModeOK k) : Keeps k (k.splitEdgeBody heh vh) := by
+  unfold splitEdgeBody
+  simp only []
+  have s1 := foldl_keeps_fst (splitEdgeHf heh vh) (fun s x => splitEdgeHf_keeps heh vh s x)
+    ((k.qHEHF heh).filter (fun hf => k.cellOf hf != none)) (k, [])
+  generalize List.foldl (splitEdgeHf heh vh) (k, []) _ = r at s1 ⊢
+  simp only at s1
+  exact (s1.trans (deleteEdge_keeps r.1 _ (s1.modeOK m))).trans (foldl_keeps readdCell4 readdCell4_keeps r.2 _)
+
+theorem splitFaceBody_keeps (k : Kernel) (fh vh : Nat) (m : ModeOK k) : Keeps k (k.splitFaceBody fh vh) := by
+  unfold splitFaceBody
+  simp only []
+  have s1 := foldl_keeps_fst (splitFaceSide fh vh) (fun s x => splitFaceSide_keeps fh vh s x) [0, 1] (k, [])
+  generalize List.foldl (splitFaceSide fh vh) (k, []) [0, 1] = r at s1 ⊢
+  simp only at s1
+  exact (s1.trans (deleteFace_keeps r.1 _ (s1.modeOK m))).trans (foldl_keeps readdCell4 readdCell4_keeps r.2 _)
+
+theorem splitEdgeAt_valence (k0 : Kernel) (heh vh : Nat) (hv : ValenceShape k0) (hm : ModeOK k0) :
+    ValenceShape (k0.splitEdgeAt heh vh) := by
+  unfold splitEdgeAt
+  have e := enterDeferred k0 hv
+  simp only at e
+  generalize (if (!k0.deferred) = true then k0.enableDeferred true else k0) = k at e ⊢
+  obtain ⟨hvk, hdk, hfk⟩ := e
+  have b := splitEdgeBody_keeps k heh vh (Or.inl hdk)
+  apply leaveDeferred _ _ (b.shape hvk)
+  rcases hm with h | h
+  · exact Or.inl h
+  · exact Or.inr (by rw [b.fast, hfk]; exact h)
+
+theorem splitFaceAt_valence (k0 : Kernel) (fh vh : Nat) (hv : ValenceShape k0) (hm : ModeOK k0) :
+    ValenceShape (k0.splitFaceAt fh vh) := by
+  unfold splitFaceAt
+  have e := enterDeferred k0 hv
+  simp only at e
+  generalize (if (!k0.deferred) = true then k0.enableDeferred true else k0) = k at e ⊢
+  obtain ⟨hvk, hdk, hfk⟩ := e
+  have b := splitFaceBody_keeps k fh vh (Or.inl hdk)
+  apply leaveDeferred _ _ (b.shape hvk)
+  rcases hm with h | h
+  · exact Or.inl h
+  · exact Or.inr (by rw [b.fast, hfk]; exact h)
+
+theorem splitEdge_valence (k : Kernel) (heh : Nat) (hv : ValenceShape k) (hm : ModeOK k) : ValenceShape (k.splitEdge heh).1 := by
+  unfold splitEdge
+  exact splitEdgeAt_valence _ _ _ ((addVertex_keeps k).shape hv) ((addVertex_keeps k).modeOK hm)
+theorem splitFace_valence (k : Kernel) (fh : Nat) (hv : ValenceShape k) (hm : ModeOK k) : ValenceShape (k.splitFace fh).1 := by
+  unfold splitFace
+  exact splitFaceAt_valence _ _ _ ((addVertex_keeps k).shape hv) ((addVertex_keeps k).modeOK hm)
+end keeps6
 end Kernel
 end OVM
